@@ -230,7 +230,8 @@ fn check_text(case: &Case, obs: &mut Obs) -> Verdict {
         let fa = a.frags();
         let ea = to_ranges(&greedy(&fa, &lws), 0);
         // variant B: leading zero-width sentinel
-        let (pb, eb) = if o.bw && !fa.is_empty() {
+        // (a leading zero-width sentinel is accepted whether or not break_words is on)
+        let (pb, eb) = if !fa.is_empty() {
             let mut fb = Vec::with_capacity(fa.len() + 1);
             fb.push(Frag { w: 0.0, ws: 0.0, pw: 0.0 });
             fb.extend(fa.iter().copied());
